@@ -272,6 +272,56 @@ pub fn families() -> Vec<Box<dyn Family>> {
             },
         ),
         family(
+            "huge_localized",
+            "line texts of 66000..140000 lines (token-count product far above 2^32) whose only edits are 1..3 changed / removed / added lines inside one window of 5 lines (mostly distinct lines, or long runs of one repeated line around the window): cheap for ALL THREE algorithms (LCS strips the common head and tail), no deadline / a deadline that never expires x str",
+            false,
+            1,
+            |cfg| if cfg.tiny { 1 } else { cfg.tier.pick(6, 24) },
+            |idx, cfg, out| {
+                let mut rng = Rng::for_case(cfg.seed, "c04.huge_localized", idx);
+                let n = if cfg.tiny { 12 } else { *rng.pick(&[66_000usize, 70_000, 100_000, 140_000]) };
+                let repeated = idx % 3 == 2;
+                let mut la: Vec<String> = (0..n).map(|i| if repeated { "same\n".to_string() } else { format!("line {}\n", i) }).collect();
+                let at = rng.below(n - 6);
+                if repeated {
+                    for k in 0..5 {
+                        la[at + k] = format!("mark {}\n", k);
+                    }
+                }
+                let mut lb = la.clone();
+                for _ in 0..1 + rng.below(3) {
+                    let p = at + rng.below(5.min(lb.len() - at));
+                    match rng.below(3) {
+                        0 => lb[p] = format!("changed {}\n", rng.below(1000)),
+                        1 => {
+                            lb.remove(p);
+                        }
+                        _ => lb.insert(p, format!("added {}\n", rng.below(1000))),
+                    }
+                }
+                let (a, b): (String, String) = (la.concat(), lb.concat());
+                let (a, b) = (a.into_bytes(), b.into_bytes());
+                out.sample(|| format!("{} lines, edits within lines {}..{}", n, at, at + 5));
+                out.nontrivial(&(n, at, &lb[at..at + 4]));
+                out.count("huge_localized_cases");
+                for alg in ALGS {
+                    for fuel in [None, Some(u64::MAX)] {
+                        let ctx = || format!("tokenizer=lines alg={} type=str deadline={} ({} lines, edits within lines {}..{})", alg_name(alg), if fuel.is_some() { "present, never expires" } else { "none" }, n, at, at + 5);
+                        out.eval();
+                        let r = guard(|| run_diff(0, alg, true, &a, &b, fuel));
+                        similar::verif_hooks::set_clock(similar::verif_hooks::Clock::Off);
+                        match r {
+                            Err(p) => out.violation("panic", format!("text diff panicked: {} | {}", p, ctx())),
+                            Ok((all, _)) => {
+                                out.count_n("changes_observed", all.len() as u64);
+                                judge("iter_all_changes", &all, &a, &b, &ctx, out);
+                            }
+                        }
+                    }
+                }
+            },
+        ),
+        family(
             "distinct_boundary",
             "texts of n DISTINCT lines with n just below 256 / 1000 / 1024 / 2048 / 4096 / 8192 / 32768 / 65536 where the new text swaps a block for fresh lines (distinct tokens on both sides together cross the boundary) x {lines, words} x {Myers, Patience}",
             true,
